@@ -11,9 +11,14 @@ xarray_utils time helpers, radiation orbital-time functions):
 * every whole-second duration (scalar and array) through (non)dimensionalize_timedelta64: exact.
 * every minute of 1979-01-01..1980-02-29 and every 97th minute over 50 years x 3 reference dates
   through datetime64_to_nondim_time / nondim_time_to_datetime64 (exact) and datetime_to_time.
-* orbital / synodic phases (SolarRadiation.time_to_orbital_time in float64 and float32, jitted and
-  plain-python paths; datetime_to_orbital_time) on the same lattices: inside [0, 2*pi) and equal to the
-  elapsed time modulo 2*pi within 16*eps*max(|unreduced phase|, 2*pi).
+* orbital / synodic phases (SolarRadiation.time_to_orbital_time in float64 and float32; op-by-op
+  jax.vmap, jax.jit(jax.vmap) and plain-python scalar paths; datetime_to_orbital_time) on the same
+  lattices: inside [0, 2*pi) and equal to the elapsed time modulo 2*pi within
+  16*eps*max(|unreduced phase|, 2*pi).  A phase outside [0, 2*pi) by no more than that bound is the
+  recorded finding F7 (site orbital_phase_range); anything larger is a violation.
+
+Array routes are driven one real array call per case (a day of minutes, 1000 sparse stamps, 10000
+seconds; `validated` counts the elements); scalar routes one call per element.
 """
 import datetime
 import struct
@@ -35,9 +40,11 @@ ASSUMPTIONS = [
     'offset units (degC) and scales with fewer than four dimensions are outside the enumerated space',
     'orbital reference dates lie on whole minutes (datetime_to_orbital_time ignores seconds by construction)',
 ]
-RULE = ('case = (scale, unit, magnitude, value form) | (scale, unit pair) | (scale, duration, form) | '
-        '(scale, reference date, datetime, dtype/path); distinct = distinct canonical key; non-trivial = every case '
-        '(the conversion is applied for real); distinct_nontrivial counts distinct implementation outputs')
+RULE = ('case = one real call (or call chain) of the conversion API on one input: (scale, unit, magnitude or magnitude array, '
+        'value form) | (scale, unit pair) | (scale, duration or block of 10000 consecutive durations) | (scale, reference date, '
+        'datetime or block of consecutive lattice datetimes, dtype/path); traces_validated counts the array elements behind a '
+        'block case; distinct = distinct canonical key; non-trivial = every case (the conversion is applied for real); '
+        'distinct_nontrivial counts distinct implementation outputs')
 
 KS = list(range(-12, 13))
 POWERS = (-2, -1, 0, 0.5, 1, 1.5, 2, 3)
@@ -60,7 +67,7 @@ def bounds(tier):
       forms=['float', 'int (when integral)', 'numpy float64 array', 'jax float64 array'],
       powers=list(POWERS),
       pair_laws='ordered pairs (every unit) x (%s)' % ('units with exponents in -1..1 + named (86)' if q else 'every unit (630)'),
-      durations_scalar='every whole second 0..86400, 5 scales' + ('' if q else ' and -86400..0; minutes 0..1440, hours 0..240'),
+      durations_scalar='every whole second 0..86400, 5 scales' + ('' if q else ' and -86400..0; minutes 0..1440, hours 0..240, ms 0..3600000 step 1000'),
       durations_array=('0..86400 and -86400..0' if q else '-86400..0 and 0..10^7') + ', stride 1, %d per array call' % ARRAY_CALL,
       datetimes='every minute 1979-01-01..1980-02-29 (612000, one day per array call) + every 97th minute over 50 years '
                 '(271114, 1000 per array call); 0-d route on every 97th lattice element',
@@ -500,9 +507,11 @@ def _phase_checks(rec, name, phase, t, mins, unit, eps, keyf):
   """Range and consistency oracles for one phase array (`phase` as returned, `t` the times as given)."""
   ph = np.asarray(phase)
   p64 = ph.astype(np.float64)
-  if not rec.finite(p64, site='orbital_phase_finite', key=keyf(0)):
+  if not rec.finite(p64, site='orbital_phase_finite', key=keyf(0) + (name,)):
     return
   exp = ru.expected_phases(t, unit['scale'], ru.REFERENCE_DATES[unit['ref']])[name]
+  case_key = keyf
+  keyf = lambda i: case_key(i) + (name,)     # violation key = case key + the observable
   unreduced, reduced = exp
   bscale = np.maximum(np.abs(unreduced), ru.TWO_PI)
   # consistency with elapsed time, modulo 2*pi
@@ -615,7 +624,7 @@ def _work_calendar_phase(unit, rec):
     bad = ~((got[:, c] >= 0) & (got[:, c] < ru.TWO_PI))
     if bad.any():
       j = int(np.flatnonzero(bad)[0])
-      rec.check(False, 'calendar_phase_out_of_range', ('calendar_phase', int(mins[j])),
+      rec.check(False, 'calendar_phase_out_of_range', ('calendar_phase', int(mins[j]), name),
                 {'phase': name, 'got': float(got[j, c]), 'when': str(np.datetime64(int(mins[j]), 'm')), 'count': int(bad.sum())})
   # the datetime64 entry point used by SolarRadiation: same calendar fields on every 97th element
   for i in range(0, len(mins), 97):
